@@ -583,7 +583,9 @@ class StmtMixin:
     def assume_invariants(self, st, spec):
         for name, expr in self.invariants(spec).items():
             self.cur_clause = name
-            st.assume(self.clause_term(expr, st.env, st, old=self.entry_state))
+            t = self.clause_term(expr, st.env, st, old=self.entry_state)
+            self.ctx.fact_tag[t.s] = name
+            st.assume(t)
 
     def st_While(self, s, st):
         idx, spec = self.loop_spec(s)
@@ -676,6 +678,8 @@ class StmtMixin:
             raise Unsupported("for loop %d has no invariant" % idx)
         kname = spec.get("index", "_k%d" % idx)
         st.env[kname] = mk_int(0)
+        for nm, expr in spec.get("bind", {}).items():
+            st.env[nm] = self.ev1(ast.parse(expr, mode="eval").body, st)     # ghost snapshot of a value at loop entry
         if mode != "range" and spec.get("seq"):
             st.env[spec["seq"]] = seqv
         self.prove_invariants(st, spec, idx, "entry")
@@ -693,6 +697,12 @@ class StmtMixin:
         # one iteration
         body = head.copy().assume(smt.Lt(k, n))
         exc = []
+        if mode != "range" and kd == "list" and seqv.ty.args[0].kind in ("str", "tstr") and "joinr" in self.ctx.decls and mode != "reversed":
+            # instance of the lemma ''.join(xs[:k+1]) == ''.join(xs[:k]) + xs[k]   (proved once, generically)
+            self.lemmas_used.add("joinr_prefix_step")
+            c = seqv.ts[0]
+            body.assume(smt.Eq(self.join_empty(smt.Substr(c, smt.Int(0), smt.Add(k, smt.Int(1)))),
+                               smt.Concat(self.join_empty(smt.Substr(c, smt.Int(0), k)), smt.At(c, k))))
         item = elem(k)
         if mode == "enumerate":
             item = mk_tuple([mk_int(k), item])
